@@ -533,7 +533,29 @@ def read_and_proc(
         os.chdir(original_cwd)
 
     # return rstripped lines
-    return [fl.rstrip() for fl in flines]
+    return [_rstrip(fl) for fl in flines]
+
+
+def _rstrip(line: str) -> str:
+    r"""Strip trailing whitespace from a processed line.
+
+    Whitespace after a trailing backslash (e.g. at the end of a comment) is
+    kept (as a single space): it is what stops the line being a continuation
+    line, so stripping it would change the meaning of the processed file when
+    that is parsed again.
+
+    Examples:
+        >>> _rstrip('foo = bar  ')
+        'foo = bar'
+        >>> _rstrip('# C:/dir/ trailing backslash \\   ')
+        '# C:/dir/ trailing backslash \\ '
+        >>> _rstrip('foo = bar \\')
+        'foo = bar \\'
+    """
+    stripped = line.rstrip()
+    if stripped != line and stripped.endswith('\\'):
+        return stripped + ' '
+    return stripped
 
 
 def hashbang_and_plugin_templating_clash(
